@@ -64,6 +64,8 @@ type Op struct {
 	Epoch   uint64   `json:"epoch,omitempty"`
 	ByIndex bool     `json:"by_index,omitempty"`
 	Indices []uint64 `json:"indices,omitempty"`
+	// refresh (not the constructor's): queries issued from inside it (see during.go)
+	During []DQ `json:"during,omitempty"`
 }
 
 type Input struct {
@@ -81,6 +83,8 @@ type Out struct {
 	Kind  string      `json:"kind"` // probe | query | ctor-error | dead
 	Known []int       `json:"known,omitempty"`
 	Pairs [][2]uint64 `json:"pairs,omitempty"`
+	// probe: what the queries issued from inside the refresh were answered
+	During []DOut `json:"during,omitempty"`
 }
 
 type accountsService interface {
@@ -103,6 +107,7 @@ type env struct {
 	svc     accountsService
 	byID    map[int]Acct
 	wallets []string // first parts of the specifiers: the wallets the managers open
+	ctl     *duringCtl
 }
 
 // offer installs what the wallets list from now on.
@@ -176,7 +181,8 @@ func runInput(in Input) (outs []Out, panicked string) {
 	if in.Trace {
 		level = zerolog.TraceLevel
 	}
-	e := &env{in: in, node: &node{}, byID: map[int]Acct{}}
+	ctl := &duringCtl{}
+	e := &env{in: in, node: &node{ctl: ctl}, byID: map[int]Acct{}, ctl: ctl}
 	for _, a := range in.Universe {
 		e.byID[a.ID] = a
 	}
@@ -216,20 +222,22 @@ func runInput(in Input) (outs []Out, panicked string) {
 		switch op.Kind {
 		case "refresh":
 			e.node.script(op.VErr, op.FailOn, op.Vals)
+			var during []DOut
 			if i > 0 {
 				e.offer(op)
-				e.svc.Refresh(ctx)
+				during = e.refreshWithDuring(ctx, op)
 			} else if in.Manager == "dirk" {
 				e.signer = map[string]*signerWallet{}
 				injected := map[string]e2wtypes.Wallet{}
 				for _, w := range e.wallets {
-					e.signer[w] = &signerWallet{name: w}
+					e.signer[w] = &signerWallet{name: w, ctl: ctl}
 					injected[w] = e.signer[w]
 				}
 				e.offer(op)
 				e.svc = dirkam.NewForVerifC13(ctx, level, injected, in.Specs, 2, vm, phase0.Epoch(in.Far), ct)
 			} else {
 				e.store = newFakeStore()
+				e.store.ctl = ctl
 				e.offer(op)
 				svc, err := walletam.NewForVerifC13(ctx, level, []e2wtypes.Store{e.store}, in.Specs,
 					[][]byte{[]byte("wrong passphrase wrong passphrase"), []byte(goodPassphrase)}, 2, vm, phase0.Epoch(in.Far), ct)
@@ -240,46 +248,10 @@ func runInput(in Input) (outs []Out, panicked string) {
 				}
 				e.svc = svc
 			}
-			outs = append(outs, Out{Kind: "probe", Known: e.probe(ctx)})
+			outs = append(outs, Out{Kind: "probe", Known: e.probe(ctx), During: during})
 		case "query":
 			ct.SetEpoch(op.Epoch % 1000000) // exercises the metrics branch (epoch == current epoch) on small epochs
-			var res map[phase0.ValidatorIndex]e2wtypes.Account
-			var err error
-			idx := make([]phase0.ValidatorIndex, 0, len(op.Indices))
-			for _, x := range op.Indices {
-				idx = append(idx, phase0.ValidatorIndex(x))
-			}
-			switch {
-			case !op.Sync && !op.ByIndex:
-				res, err = e.svc.ValidatingAccountsForEpoch(ctx, phase0.Epoch(op.Epoch))
-			case !op.Sync && op.ByIndex:
-				res, err = e.svc.ValidatingAccountsForEpochByIndex(ctx, phase0.Epoch(op.Epoch), idx)
-			case op.Sync && !op.ByIndex:
-				res, err = e.svc.SyncCommitteeAccountsForEpoch(ctx, phase0.Epoch(op.Epoch))
-			default:
-				res, err = e.svc.SyncCommitteeAccountsForEpochByIndex(ctx, phase0.Epoch(op.Epoch), idx)
-			}
-			if err != nil {
-				panic(fmt.Sprintf("query error: %v", err))
-			}
-			pairs := make([][2]uint64, 0, len(res))
-			for index, acc := range res {
-				id := uint64(0) // 0: a nil account or one that was never offered
-				if acc != nil {
-					var pk phase0.BLSPubKey
-					copy(pk[:], acc.PublicKey().Marshal())
-					if k, ok := pkToID[pk]; ok && e.byID[k].Name == acc.Name() {
-						id = uint64(k)
-					}
-				}
-				pairs = append(pairs, [2]uint64{uint64(index), id})
-			}
-			sort.Slice(pairs, func(i, j int) bool {
-				if pairs[i][0] != pairs[j][0] {
-					return pairs[i][0] < pairs[j][0]
-				}
-				return pairs[i][1] < pairs[j][1]
-			})
+			pairs := e.query(ctx, op.Sync, op.Epoch, op.ByIndex, op.Indices)
 			outs = append(outs, Out{Kind: "query", Pairs: pairs})
 		default:
 			panic("unknown operation kind " + op.Kind)
@@ -459,7 +431,7 @@ func term(id uint64, in Input, outs []Out) (string, error) {
 			os = append(os, "ODead")
 		}
 	}
-	return b.wrap(App("Build_case", fmt.Sprintf("%d", id), cfg, table, List(ops), List(os))), nil
+	return b.wrap(App("Build_case", fmt.Sprintf("%d", id), cfg, table, List(ops), List(os), b.duringTerm(in, outs))), nil
 }
 
 // tagsOf computes the input families from the input alone.
@@ -515,6 +487,9 @@ func tagsOf(in Input) []string {
 			}
 			if op.FailOn > 0 && !op.VErr {
 				add("node-fails-on-key")
+			}
+			if len(op.During) > 0 {
+				add("query-during-refresh")
 			}
 			for _, v := range op.Vals {
 				if v.Slashed && v.Exit == in.Far {
@@ -609,13 +584,16 @@ func TestC13(t *testing.T) {
 		}
 		col.Count("manager:" + in.Manager)
 		for _, tg := range tags {
-			if strings.HasPrefix(tg, "alternation") || strings.HasPrefix(tg, "large-installation") || strings.HasPrefix(tg, "node-fails") || strings.HasPrefix(tg, "big:") {
+			if strings.HasPrefix(tg, "alternation") || strings.HasPrefix(tg, "large-installation") || strings.HasPrefix(tg, "node-fails") || strings.HasPrefix(tg, "big:") || tg == "query-during-refresh" {
 				col.Count("family:" + tg)
 			}
 		}
 		col.Count(fmt.Sprintf("specs:%d", len(in.Specs)))
 		for _, op := range in.Ops {
 			col.Count("op:" + op.Kind)
+			for _, q := range op.During {
+				col.Count("query-during-refresh:" + q.Point)
+			}
 			if op.Kind == "query" {
 				k := "validating"
 				if op.Sync {
